@@ -561,8 +561,19 @@ def g3(ctx, res):
         if labels != want:
             good = False
             bad[str((d, q, one))] = sorted(labels)
+    # the declared element conjoined AFTER the patterns (appended to the list of pattern elements): the value is then
+    # built by a pattern schema, not by the declared one
+    appended_after = any(isinstance(x, ast.Call) and isinstance(x.func, ast.Attribute) and x.func.attr in ("append", "extend")
+                         and x.args and any(isinstance(y, ast.Attribute) and y.attr == "element" for y in ast.walk(x.args[0]))
+                         and any(is_pat(st_.value) for st_ in walk_own(V(ctx, gi, keep=tuple(gi.locals())).body)
+                                 if isinstance(st_, (ast.Assign, ast.AnnAssign)) and st_.value is not None
+                                 and norm(st_.targets[0] if isinstance(st_, ast.Assign) else st_.target) == norm(x.func.value))
+                         for x in walk_own(V(ctx, gi, keep=tuple(gi.locals())).body))
     # a mismatch made only of recognised labels is a refutation; an unreadable construction is not
     recognised_bad = {k_: v_ for k_, v_ in bad.items() if not any(x.startswith("other") for x in v_)}
+    if appended_after:
+        recognised_bad["declared element appended after the pattern elements"] = ["pattern-first composite"]
+        opaque = set()
     unreadable = any(lab.startswith("other") for labs in table.values() for lab in labs)
     res.judge(True if good else (False if recognised_bad and not opaque else (None if (unreadable or opaque) else False)), gi,
               "(declared?, pattern match?) -> additional | patterns | declared | declared+patterns",
